@@ -549,9 +549,11 @@ def _is_subtype(sub_type: Any, super_type: Any, context: Dict[str, Any] = None) 
         >>> _is_subtype(List[int], List[Union[int, float]])
         True
         >>> _is_subtype(List[Union[int, float]], List[int])
-        Traceback (most recent call last):
-        ...
-        TypeError: issubclass() arg 1 must be a class
+        False
+        >>> _is_subtype(List[Union[int, bool]], List[int])
+        True
+        >>> _is_subtype(Optional[int], int)
+        False
         >>> class Parent: pass
         >>> class Child(Parent): pass
         >>> _is_subtype(List[Child], List[Parent])
@@ -602,12 +604,12 @@ def _is_subtype(sub_type: Any, super_type: Any, context: Dict[str, Any] = None) 
     if python_super is object:
         return True
 
+    if python_sub == typing.Union or isinstance(python_sub, types.UnionType):
+        sub_type_args = get_type_arguments(cls=sub_type)
+        return all(_is_subtype(sub_type=x, super_type=super_type, context=context) for x in sub_type_args)  # every member
+
     if python_super == typing.Union or isinstance(python_super, types.UnionType):
         type_args = get_type_arguments(cls=super_type)
-
-        if python_sub == typing.Union or isinstance(python_sub, types.UnionType):
-            sub_type_args = get_type_arguments(cls=sub_type)
-            return all(_is_subtype(sub_type=x, super_type=super_type, context=context) for x in sub_type_args)  # every member
 
         if any([type(ta) == _ProtocolMeta for ta in type_args]):
             return True  # shortcut
